@@ -18,12 +18,13 @@ def cond_src(c, obliv):
 
 
 def rhs_src(r, obliv):
+    import re
     if not obliv:
-        return r
+        return re.sub(r"l([01])", r"l[\1]", r)
     out = r
     for v in ("x", "y"):
         out = out.replace(v, "_." + v)
-    return out
+    return re.sub(r"l([01])", r"_.l[\1]", out)
 
 
 def _twin_div(r):
@@ -62,7 +63,10 @@ class Emitter:
             elif "i" in rhs:
                 rhs = rhs.replace("+i", "+1")
             tgt = ("_." + st[1]) if o else st[1]
-            self.emit(ind, "%s = %s" % (tgt, rhs_src(rhs, o) if o else rhs))
+            if st[1] in ("l0", "l1"):
+                # element of a list-valued variable, modified in place
+                tgt = ("_.l[%s]" if o else "l[%s]") % st[1][1]
+            self.emit(ind, "%s = %s" % (tgt, rhs_src(rhs, o)))
         elif k == "lazy":
             _, var, c, rt_, rf_ = st
             if o:
@@ -127,12 +131,14 @@ def emit_program(stmts, obliv, explicit_ctx=True):
         e.emit(1, "_ = BranchingValues()")
         e.emit(1, "_.x = X")
         e.emit(1, "_.y = Y")
+        e.emit(1, "_.l = [X, Y]")
         e.block(stmts, 1)
-        e.emit(1, "return _.x, _.y, _")
+        e.emit(1, "return _.x, _.y, _, _.l")
     else:
         e.emit(0, "def prog(x, y, b, n):")
+        e.emit(1, "l = [x, y]")
         e.block(stmts, 1)
-        e.emit(1, "return x, y")
+        e.emit(1, "return x, y, l")
     return "\n".join(e.lines) + "\n"
 
 
@@ -200,6 +206,22 @@ def programs(level):
             out.append([("lazy", var, c, a, b), ("if", [("x<y", [A[0]])], [A[1]])])
             out.append([("if", [("b", [("lazy", var, c, a, b)])], None)])
             out.append([("for", 2, [("lazy", var, c, a, b)], False)])
+    # --- list-valued variable modified in place inside branches and loops
+    LS = [("assign", "l0", "l0+1"), ("assign", "l1", "l0+l1"), ("assign", "l0", "x"), ("assign", "l1", "l1*2"), ("assign", "l0", "7")]
+    for c in CONDS:
+        for a in LS:
+            out.append([("if", [(c, [a])], None)])
+            out.append([("if", [(c, [a])], [LS[1]])])
+            out.append([("if", [(c, [A[0]]), ("x==1", [a])], [LS[3], A[1]])])
+    for mx in (2, 3):
+        for a in LS:
+            for chk in (False, True):
+                out.append([("for", mx, [a], chk)])
+                out.append([("for", mx, [a, ("assign", "l1", "l1+i")], chk)])
+            for c in ("i!=n", "x<y"):
+                for brk in (None, "y==3", "b"):
+                    out.append([("while", c, mx, [a], brk)])
+                    out.append([("while", c, mx, [("assign", "x", "x+1"), a], brk)])
     if level >= 1:
         # nesting 2: if in if, loop in if, if in loop, loop in loop
         inner_ifs = [("if", [(c, [a])], e) for c in ("x<y", "b", "x==1") for a in A4[:2] for e in (None, [A[4]])]
